@@ -344,9 +344,8 @@ def check_deliveries(env, evs, viol):
         for (kk, l), got in counts.items():
             if kk != k or l in R:
                 continue
-            if l in added and l.name == e['name'] and len(got) <= 1:
-                continue
-            viol.append(('delivered-to-unregistered', l.name + '-listener',
+            ctx = 'added-during-delivery' if l in added else l.name + '-listener'
+            viol.append(('delivered-to-unregistered', ctx,
                          'event %d (%s): %r was not registered for it but received %r' % (k, e['name'], l, got)))
         for a in changes[k]:
             if a[0] == 'add':
